@@ -28,6 +28,7 @@ FIXED = [
  ("F41", ["C17"], "a3459b9", "chk2plt --species parsed the names with type=int: a species list could not be given on the command line"),
  ("F42", ["C13"], "31f187c", "pestle command line turned every read error (missing level header, corrupted header) into a 'not supported' message and exit status 0"),
  ("F43", ["C13"], "2098dcf", "whip command line exited with status 0 for a 2D plotfile although nothing was written"),
+ ("F44", ["C13", "C10"], "000d5e3", "whip ended its per-file read loop on any exception: a truncated binary file gave a grid with zeros for the unread boxes and a normal exit"),
  ("F21", ["C13"], "b455f93", "combine default output with a trailing slash on input 1 was input 2 itself (its Header overwritten)"),
  ("F6",  ["C07"], "a55b6fc", "mandoline default position was (high-low)/2, outside the domain for shifted origins -> uninitialised image"),
  ("F20", ["C13"], "c0fc4b6", "mandoline default output with a trailing slash landed inside the input plotfile"),
